@@ -422,6 +422,206 @@ class ParseStage(Target):
         return []
 
 
+class MemoryConfigParser:
+    """the in-memory table behind FlowConfigParser (add_section / set / write): trusted stand-in for configparser, which
+    stores and returns option texts unchanged (raw mode, case-preserving optionxform)"""
+
+    def __init__(self):
+        self.sections = {}
+        self.written = False
+
+    def stub(self):
+        me = self
+        return Obj('FlowConfigParser',
+                   add_section=Extern('cfg.add_section', lambda c, name: me.sections.setdefault(name, {}) and None),
+                   set=Extern('cfg.set', lambda c, sec, key, value: me.sections[sec].__setitem__(key, value)),
+                   write=Extern('cfg.write', lambda c, f: setattr(me, 'written', True)))
+
+
+def _file_stub():
+    f = Obj('file', __enter__=None, __exit__=None)
+    f.__enter__ = Extern('file.__enter__', lambda c: f)
+    f.__exit__ = Extern('file.__exit__', lambda c, *a: False)
+    return f
+
+
+def _parse_back(thunk):
+    """run the real parser inside a postcondition; an exception of the PROGRAM (not of the engine) means: cannot be parsed"""
+    from pyvc.core import OutsideSubset, EngineError, Infeasible, PathLimit
+    try:
+        return thunk()
+    except (OutsideSubset, EngineError, Infeasible, PathLimit):
+        raise
+    except BaseException as err:
+        if isinstance(err, (KeyboardInterrupt, SystemExit, MemoryError)):
+            raise
+        return None
+
+
+class OutputSectionRoundTrip(Target):
+    """output.conf: what Dosini._dump_output stores in the parser, read back by the REAL Dosini.parse_output, is the output
+    section that was written -- for ARBITRARY stage indices (symbolic integers, any number of digits), one or two stages
+    per entry, arbitrary descriptions / types / data-in references."""
+    prop = 'C19'
+    name = 'Dosini._dump_output/parse_output'
+    file = DS
+    qualname = 'Dosini._dump_output'
+    inline_class = {'cls': (DS, 'Dosini')}
+    compare_return = False
+    trusted = ["configparser keeps option texts unchanged (in-memory table)", "open() for writing succeeds"]
+    assumptions = ["<= 2 output entries, <= 2 stages each (stage indices unbounded); description/type/data-in are arbitrary "
+                   "strings without newline"]
+
+    def setup(self, c):
+        from pyvc.core import compare
+        n = 1 + c.choice('entries', 2)
+        output = {}
+        for i in range(n):
+            entry = {}
+            ns = c.choice('entry%d.stages' % i, 3)
+            if ns:
+                idx = []
+                for j in range(ns):
+                    v = c.int('entry%d.stage%d' % (i, j), sample=[12, 345][j])
+                    c.require(compare('>=', v, 0))
+                    idx.append(v)
+                entry['stages'] = idx
+            for key in ('description', 'type', 'data-in'):
+                if c.one_of('entry%d.has_%s' % (i, key), [True, False]):
+                    entry[key] = c.atom('entry%d.%s' % (i, key), {'description': '"the result, final"', 'type': 'csv',
+                                                                  'data-in': 'Step9/out.csv:copy'}[key], excludes='\n')
+            output['Out%d' % i] = entry
+        doc = {FlowIR.FieldOutput: output}
+        mem = MemoryConfigParser()
+        cls = Obj('Dosini-class')
+        return State(args=[cls, doc, '/inst/conf'], cls=cls, doc=doc, output=output, mem=mem)
+
+    def externs(self, c, st):
+        return {'FlowConfigParser': Extern('FlowConfigParser', lambda c: st.mem.stub()),
+                'open': Extern('open', lambda c, *a, **k: _file_stub())}
+
+    def ensures(self, c, st, out):
+        if out.kind == 'raise':
+            return [('no-exception', False)]
+        from pyvc import sstr as _sstr
+        loaded = _parse_back(lambda: st.cls.parse_output({}, st.mem.sections))   # the REAL parser, on what the REAL writer stored
+        if loaded is None:
+            return [('what-was-written-can-be-parsed', False)]
+        got = loaded.get(FlowIR.FieldOutput, {})
+        ok_keys = set(got) == set(st.output)
+        ok = True
+        stages_ok = True
+        for name, entry in st.output.items():
+            g = got.get(name, {})
+            for key in ('description', 'type', 'data-in'):
+                if key in entry:
+                    gv = g.get(key)
+                    if not (isinstance(gv, (str, _sstr.SStr)) and _sstr.equal(gv, entry[key])):
+                        ok = False
+                elif g.get(key) is not None:
+                    ok = False
+            want = entry.get('stages', [])
+            gs = g.get('stages', None)
+            if gs is None or len(gs) != len(want):
+                stages_ok = False
+            else:
+                stages_ok = And(stages_ok, *[Eq(a, b) for a, b in zip(gs, want)])
+        return [('what-was-written-can-be-parsed', True), ('the-file-is-written', st.mem.written),
+                ('every-output-entry-is-read-back', ok_keys),
+                ('description-type-and-data-in-are-read-back-as-written', ok),
+                ('stage-lists-are-read-back-as-written', stages_ok)]
+
+    def cross_compare(self, *a):
+        return []
+
+
+class StatusSectionRoundTrip(Target):
+    """status.conf: Dosini._dump_status then the REAL Dosini.parse_status gives back the status report (stage indices from a pool with one, two and three
+    digits: they are dictionary keys; weights, executable, arguments, references)."""
+    prop = 'C19'
+    name = 'Dosini._dump_status/parse_status'
+    file = DS
+    qualname = 'Dosini._dump_status'
+    inline_class = {'cls': (DS, 'Dosini')}
+    compare_return = False
+    float_sensitive = True
+    trusted = ["configparser keeps option texts unchanged, apart from blanks around a value (in-memory table)", "open() for writing succeeds",
+               "float(str(w)) == w for the doubles that are written (repr round trip of CPython)"]
+    assumptions = ["<= 2 stages in the report (indices from a concrete pool: BOUNDED in the index); stage weights are concrete doubles from a pool; executable / "
+                   "arguments are arbitrary strings without newline; references are words without blanks"]
+    WEIGHTS = [None, 0.3333, 1.0]
+    max_paths = 20000
+    INDICES = [0, 7, 10, 12, 345]          # dictionary KEYS: concrete (bounded in the index; one, two and three digits)
+
+    def setup(self, c):
+        from pyvc.core import compare
+        n = 1 + c.choice('stages', 2)
+        pool = self.INDICES
+        first = c.choice('stage0.index', len(pool) - (n - 1))
+        idx = [pool[first]]
+        if n == 2:
+            idx.append(pool[first + 1 + c.choice('stage1.index', len(pool) - first - 1)])
+        entries = []
+        for i in range(n):
+            e = {}
+            w = self.WEIGHTS[c.choice('stage%d.weight' % i, len(self.WEIGHTS))]
+            if w is not None:
+                e['stage-weight'] = w
+            if c.one_of('stage%d.has_executable' % i, [False, True]):
+                e['executable'] = c.atom('stage%d.executable' % i, 'bin/progress.sh', excludes='\n \t')
+                # one or two words (configparser strips the blanks AROUND a value when it reads a file: none are written)
+                word = lambda tag, sample: c.atom('stage%d.%s' % (i, tag), sample, excludes=' \t\n\r\x0b\x0c')
+                e['arguments'] = word('arguments', '--fast')
+                if c.one_of('stage%d.two_argument_words' % i, [False, True]):
+                    from pyvc import sstr as _s
+                    w2 = word('arguments2', '-n=3')
+                    e['arguments'] = _s.concat(_s.concat(e['arguments'], '  '), w2) if c.mode == 'sym' else e['arguments'] + '  ' + w2
+                e['references'] = [c.atom('stage%d.ref%d' % (i, j), 'stage0.A/out:ref', excludes=' \t\n\r\x0b\x0c')
+                                   for j in range(c.choice('stage%d.references' % i, 3))]
+            entries.append(e)
+        mem = MemoryConfigParser()
+        cls = Obj('Dosini-class')
+        st = State(cls=cls, idx=idx, entries=entries, mem=mem)
+        st.status = dict(zip(idx, entries))
+        st.args = [cls, {FlowIR.FieldStatusReport: st.status}, '/inst/conf']
+        return st
+
+    def externs(self, c, st):
+        return {'FlowConfigParser': Extern('FlowConfigParser', lambda c: st.mem.stub()),
+                'open': Extern('open', lambda c, *a, **k: _file_stub())}
+
+    def ensures(self, c, st, out):
+        if out.kind == 'raise':
+            return [('no-exception', False)]
+        from pyvc import sstr as _sstr
+        loaded = _parse_back(lambda: st.cls.parse_status({}, st.mem.sections))
+        if loaded is None:
+            return [('what-was-written-can-be-parsed', False)]
+        got = loaded.get(FlowIR.FieldStatusReport, {})
+        pairs = list(got.items())
+        ok_n = len(pairs) == len(st.entries)
+        ok_idx, ok_val = True, True
+        for (gi, g), wi, e in zip(pairs, st.idx, st.entries):
+            ok_idx = ok_idx and gi == wi
+            if g.get('stage-weight') != e.get('stage-weight'):
+                ok_val = False
+            if 'executable' in e:
+                if not (_sstr.equal(g.get('executable'), e['executable']) and _sstr.equal(g.get('arguments'), e['arguments'])):
+                    ok_val = False
+                refs = g.get('references')
+                if refs is None or len(refs) != len(e['references']) or not all(_sstr.equal(a, b) for a, b in zip(refs, e['references'])):
+                    ok_val = False
+            elif 'executable' in g:
+                ok_val = False
+        return [('what-was-written-can-be-parsed', True), ('the-file-is-written', st.mem.written),
+                ('every-stage-of-the-report-is-read-back', ok_n),
+                ('stage-indices-are-read-back-as-written', ok_idx),
+                ('weights-executable-arguments-and-references-are-read-back-as-written', ok_val)]
+
+    def cross_compare(self, *a):
+        return []
+
+
 class InstanceRoundTripNative:
     """BOUNDED stand-in (native, never counted as proved): whole synthetic instances (3 and 12 stages; local / lsf /
     kubernetes components, global / stage / component variables, an environment, status and output sections) are assembled
@@ -512,6 +712,7 @@ class InstanceRoundTripNative:
         return f
 
 
-TARGETS = [ParseRouting(), KnownOptionsTable(), ValidateComponentFrame(), DiscoverStages(), ParseStage()]
+TARGETS = [ParseRouting(), KnownOptionsTable(), ValidateComponentFrame(), DiscoverStages(), ParseStage(),
+           OutputSectionRoundTrip(), StatusSectionRoundTrip()]
 LEMMAS = [KeyTables()]
 BOUNDED = [SectionRoundTrip(), InstanceRoundTripNative()]
